@@ -3,7 +3,7 @@ import os, json
 
 # events whose acceptance does not depend on earlier events (replay slice = the event alone)
 STATELESS_OPS = {'codec', 'decode', 'hexfmt', 'hexparse', 'canonout', 'ancpair', 'children', 'parentcomp', 'childcomp', 'uncompact',
-                 'compact', 'anchors', 'relconfig', 'quintmap', 'call', 'lookup', 'boundary'}
+                 'compact', 'anchors', 'relconfig', 'quintmap', 'call', 'lookup', 'lookupsteps', 'boundary'}
 
 
 def match_known(kf, ev):
@@ -255,9 +255,11 @@ def plan_c11(ctx):
 
 
 def plan_c01(ctx):
-    r = standard(ctx, [dict(module='MC_Lookup')],
+    r = standard(ctx, [dict(module='MC_Lookup'), dict(module='MC_LookupSteps')],
                  rule='lookup scenarios of MC_Lookup (7 resolution classes x 7 location classes) instantiated with seeded points; points '
-                      'hugging every edge and vertex of sampled cells at relative depths 1e-13..0.3 on both sides. '
+                      'hugging every edge and vertex of sampled cells at relative depths 1e-13..0.3 on both sides; the search loop itself is '
+                      'model-checked at step grain (MC_LookupSteps) and the step log of a quarter of the lookups (all hard ones) is folded '
+                      'through the same transition function by Trace.tla. '
                       'distinct_nontrivial = lookups not answered by the direct estimate (probe or fallback branch)',
                  assumptions=['containment: fine planar measure through the library projection (band 1e-12) AND independent ring oracle '
                               'with measured sagitta allowance; a point is outside if either says so beyond its allowance'])
